@@ -11,7 +11,17 @@ pub struct AstFile { pub package: AstIdent, pub rest: AstRest }
 // hir::SourceFileAst (same two fields)
 pub struct SourceFileAst { pub path: PathBuf, pub ast: AstFile }
 impl PathBuf {
-    #[verifier::external_body] pub fn to_path_buf(&self) -> (r: PathBuf) { unimplemented!() }
+    #[verifier::external_body] pub fn to_path_buf(&self) -> (r: PathBuf) ensures r == *self { unimplemented!() }
+    pub uninterp spec fn fname(&self) -> Seq<char>;          // Path::file_name: the last component
+}
+// `a.file_name() == b.file_name()`
+#[verifier::external_body] pub fn same_file_name(a: &PathBuf, b: &PathBuf) -> (r: bool) ensures r == (a.fname() == b.fname()) { unimplemented!() }
+// `a == b` on paths: component-wise equality of the spellings (`main.gom` and `./main.gom` differ)
+#[verifier::external_body] pub fn path_eq(a: &PathBuf, b: &PathBuf) -> (r: bool) ensures r ==> a.fname() == b.fname() { unimplemented!() }
+// C13: the pre-parsed entry file is in the unit ONCE — no file read from the directory (index >= n0) is the entry file again,
+// however the entry path was spelled on the command line
+pub open spec fn entry_once(files: Seq<SourceFileAst>, n0: int, entry_path: Option<&PathBuf>) -> bool {
+    entry_path matches Some(e) ==> forall|i: int| n0 <= i < files.len() ==> (#[trigger] files[i]).path.fname() != e.fname()
 }
 #[verifier::external_body] pub fn compile_error(m: String) -> (r: CompilationError) { unimplemented!() }
 #[verifier::external_body] pub fn rt_msg() -> (r: String) { unimplemented!() }
